@@ -900,9 +900,9 @@ extern "C" __attribute__((used)) const char *__ubsan_default_options() {
 // Counted here (uninstrumented TU) so that TSan does not see the harness's
 // own bookkeeping as shared state.
 namespace simw {
-static uint64_t g_probes[64];
+static uint64_t g_probes[256];
 void probe(int p, uint64_t n) {
-  if (p >= 0 && p < 64) g_probes[p] += n;
+  if (p >= 0 && p < 256) g_probes[p] += n;
 }
 uint64_t *probe_array() { return g_probes; }
 }  // namespace simw
